@@ -426,6 +426,13 @@ inductive UArg (β : Type)
   | other (id : Nat)
   deriving Repr, Inhabited
 
+/-- an `http.Handler` value as `WrapHTTPHandlers` builds it: nil, the router itself, or a wrapper applied to a handler -/
+inductive HV
+  | nil
+  | router
+  | wrap (pre : Nat) (inner : HV)
+  deriving DecidableEq, Repr, Inhabited
+
 /-- which field of the context an adapter hands to the wrapped std handler -/
 inductive CArg
   | resp   -- c.Resp
